@@ -194,6 +194,8 @@ struct Table {
     m: usize,
     ival: [[u64; MAX_ATOMS]; MAX_ATOMS],
     inf: [[bool; MAX_ATOMS]; MAX_ATOMS],
+    /// the value of the pairs marked in `inf`: +inf (family one-infinite) or -inf (family one-negative-infinite)
+    inf_value: f32,
     fixed: Option<f32>,
     scale: f64,
     offset: f64,
@@ -268,6 +270,8 @@ enum Family {
     Geometric,
     /// as Spread, but the pair of the largest rank is at f32::INFINITY (a legal distance, e.g. -ln 0)
     InfTop,
+    /// as Spread, but the pair of rank 0 (the closest) is at f32::NEG_INFINITY
+    InfBottom,
     /// as Spread minus an offset that puts exactly the closest pair below zero
     NegOne,
     /// as Spread minus an offset that puts exactly the ceil(m/2) closest pairs below zero
@@ -308,6 +312,7 @@ impl Family {
             Family::Linear => "linear",
             Family::Geometric => "geometric",
             Family::InfTop => "one-infinite",
+            Family::InfBottom => "one-negative-infinite",
             Family::NegOne => "closest-negative",
             Family::NegHalf => "half-negative",
             Family::NegAll => "all-negative",
@@ -328,7 +333,7 @@ impl Family {
     }
     fn scale(self, m: usize) -> f64 {
         match self {
-            Family::Spread | Family::InfTop | Family::NegOne | Family::NegHalf | Family::NegAll | Family::EqualPair | Family::ZeroRank0 | Family::ZeroRank1 | Family::ZeroRankMid | Family::ZeroRankTop => (1u64 << (m + 6)) as f64,
+            Family::Spread | Family::InfTop | Family::InfBottom | Family::NegOne | Family::NegHalf | Family::NegAll | Family::EqualPair | Family::ZeroRank0 | Family::ZeroRank1 | Family::ZeroRankMid | Family::ZeroRankTop => (1u64 << (m + 6)) as f64,
             Family::Subnormal => 2f64.powi(149),
             Family::Top => {
                 let top = if m == 0 { 1 } else { base_int(Family::Spread, m - 1, m) };
@@ -394,7 +399,7 @@ fn zero_rank(fam: Family, m: usize) -> Option<usize> {
 
 fn base_int(fam: Family, rank: usize, m: usize) -> u64 {
     match fam {
-        Family::Spread | Family::InfTop | Family::NegOne | Family::NegHalf | Family::NegAll | Family::Tiny30 | Family::Tiny60 | Family::Tiny100 | Family::Huge60 | Family::Top | Family::EqualPair | Family::ZeroRank0 | Family::ZeroRank1 | Family::ZeroRankMid | Family::ZeroRankTop => (((rank as u64) + 1) << m) | (1u64 << rank),
+        Family::Spread | Family::InfTop | Family::InfBottom | Family::NegOne | Family::NegHalf | Family::NegAll | Family::Tiny30 | Family::Tiny60 | Family::Tiny100 | Family::Huge60 | Family::Top | Family::EqualPair | Family::ZeroRank0 | Family::ZeroRank1 | Family::ZeroRankMid | Family::ZeroRankTop => (((rank as u64) + 1) << m) | (1u64 << rank),
         Family::Subnormal => 8 * ((((rank as u64) + 1) << m) | (1u64 << rank)) + 1,
         Family::MixedTiny2 | Family::MixedTinyHalf => {
             let spread = (((rank as u64) + 1) << m) | (1u64 << rank);
@@ -424,7 +429,7 @@ impl Table {
                 let v = base_int(fam, rank_of_pair[p], m);
                 ival[i][j] = v;
                 ival[j][i] = v;
-                if fam == Family::InfTop && rank_of_pair[p] + 1 == m {
+                if (fam == Family::InfTop && rank_of_pair[p] + 1 == m) || (fam == Family::InfBottom && rank_of_pair[p] == 0) {
                     inf[i][j] = true;
                     inf[j][i] = true;
                 }
@@ -456,12 +461,12 @@ impl Table {
             Some(r) => base_int(Family::Spread, r, m) as f64,
             None => negative_offset(negatives(fam, m), m) as f64,
         };
-        Table { m, ival, inf, fixed: None, scale: fam.scale(m), offset, subsets: None }
+        Table { m, ival, inf, inf_value: if fam == Family::InfBottom { f32::NEG_INFINITY } else { f32::INFINITY }, fixed: None, scale: fam.scale(m), offset, subsets: None }
     }
 
     /// Content-keyed look-up table for overlapping inputs over a 3-term universe.
     fn for_subsets(universe: [u32; 3], variant: usize) -> Table {
-        Table { m: 28, ival: [[0u64; MAX_ATOMS]; MAX_ATOMS], inf: [[false; MAX_ATOMS]; MAX_ATOMS], fixed: None, scale: SUBSET_SCALE, offset: 0.0, subsets: Some(SubsetTable::new(universe, variant)) }
+        Table { m: 28, ival: [[0u64; MAX_ATOMS]; MAX_ATOMS], inf: [[false; MAX_ATOMS]; MAX_ATOMS], inf_value: f32::INFINITY, fixed: None, scale: SUBSET_SCALE, offset: 0.0, subsets: Some(SubsetTable::new(universe, variant)) }
     }
 
     /// The distance of inputs i and j in the initial call (keyed by input index).
@@ -484,7 +489,7 @@ impl Table {
                 }
             }
         }
-        Table { m: n_pairs(n), ival, inf: [[false; MAX_ATOMS]; MAX_ATOMS], fixed: None, scale, offset: 0.0, subsets: None }
+        Table { m: n_pairs(n), ival, inf: [[false; MAX_ATOMS]; MAX_ATOMS], inf_value: f32::INFINITY, fixed: None, scale, offset: 0.0, subsets: None }
     }
 
     /// Two singleton inputs with the explicit distance `v` between them.
@@ -519,7 +524,7 @@ impl Table {
             }
         }
         if infinite {
-            return f32::INFINITY;
+            return self.inf_value;
         }
         (((sum as f64) / (cnt as f64) - self.offset) / self.scale) as f32
     }
@@ -573,8 +578,8 @@ struct Rec {
     selfpairs: u32,
     /// overlapping but different sets
     overlap: u32,
-    /// sets whose iteration is not strictly ascending (a term twice / unsorted) or whose len() is not
-    /// the number of distinct terms; the first one as (iterated ids, len())
+    /// sets whose iteration yields a term twice or whose len() is not the number of distinct terms (the
+    /// ORDER of the iteration is not demanded); the first one as (iterated ids, len())
     malformed: u32,
     malformed_example: Option<(Vec<u32>, usize)>,
 }
@@ -595,15 +600,15 @@ impl Rec {
 
 fn content_of(set: &HpoSet<'_>, allowed: u32, rec: &mut Rec) -> u32 {
     let mut m = 0u32;
-    let mut prev: Option<u32> = None;
     let mut well_formed = true;
     for t in set.iter() {
         let id = t.id().as_u32();
-        if prev.map_or(false, |p| p >= id) {
-            well_formed = false;
-        }
-        prev = Some(id);
         if id <= MAX_TERM && allowed >> id & 1 == 1 {
+            // "the union of the merged sets" fixes the content, not the order in which it is iterated (a union that
+            // appends the second set's new terms is the exact union); a term handed out twice is not a union
+            if m >> id & 1 == 1 {
+                well_formed = false;
+            }
             m |= 1 << id;
         } else {
             rec.foreign += 1;
@@ -690,15 +695,20 @@ struct Obs {
     inexact_size_hint: bool,
 }
 
-fn merge_of(c: &hpo::stats::cluster::Cluster) -> Merge {
-    (c.lhs(), c.rhs(), c.distance().to_bits(), c.len())
+/// (lhs, rhs, distance bits, len) of an item of any view of the result. A macro, not a function: the item type
+/// (today `hpo::stats::cluster::Cluster`, borrowed or owned) is not named, only its four accessors are used.
+macro_rules! merge_of {
+    ($c:expr) => {{
+        let c = $c;
+        (c.lhs(), c.rhs(), c.distance().to_bits(), c.len())
+    }};
 }
 
 /// Take every view of the result. The forward iteration of `cluster()` is the yardstick; `rev()`,
 /// `&linkage`, `iter()`, `nth(k)`, `last()`, `len()` / `size_hint()` after taking k items (every k) are
 /// compared with it here; the owned iteration (one of four ways, chosen by `variant`) is compared by the oracle.
 fn observe(l: Linkage<'_>, variant: usize) -> Obs {
-    let cluster: Vec<Merge> = l.cluster().map(merge_of).collect();
+    let cluster: Vec<Merge> = l.cluster().map(|c| merge_of!(c)).collect();
     let len = cluster.len();
     let mut views: Option<(&'static str, String)> = None;
     let mut inexact_size_hint = false;
@@ -707,14 +717,14 @@ fn observe(l: Linkage<'_>, variant: usize) -> Obs {
             views = Some((site, what));
         }
     };
-    if !l.cluster().rev().map(merge_of).eq(cluster.iter().rev().copied()) {
-        note("cluster::Iter (DoubleEndedIterator)", format!("cluster().rev() yields {:?}", fmt_merges(&l.cluster().rev().map(merge_of).collect::<Vec<_>>())));
+    if !l.cluster().rev().map(|c| merge_of!(c)).eq(cluster.iter().rev().copied()) {
+        note("cluster::Iter (DoubleEndedIterator)", format!("cluster().rev() yields {:?}", fmt_merges(&l.cluster().rev().map(|c| merge_of!(c)).collect::<Vec<_>>())));
     }
-    if !(&l).into_iter().map(merge_of).eq(cluster.iter().copied()) {
-        note("IntoIterator for &Linkage", format!("(&linkage).into_iter() yields {:?}", fmt_merges(&(&l).into_iter().map(merge_of).collect::<Vec<_>>())));
+    if !(&l).into_iter().map(|c| merge_of!(c)).eq(cluster.iter().copied()) {
+        note("IntoIterator for &Linkage", format!("(&linkage).into_iter() yields {:?}", fmt_merges(&(&l).into_iter().map(|c| merge_of!(c)).collect::<Vec<_>>())));
     }
-    if !l.iter().map(merge_of).eq(cluster.iter().copied()) {
-        note("Linkage::iter", format!("iter() yields {:?}", fmt_merges(&l.iter().map(merge_of).collect::<Vec<_>>())));
+    if !l.iter().map(|c| merge_of!(c)).eq(cluster.iter().copied()) {
+        note("Linkage::iter", format!("iter() yields {:?}", fmt_merges(&l.iter().map(|c| merge_of!(c)).collect::<Vec<_>>())));
     }
     {
         let mut it = l.cluster();
@@ -727,7 +737,7 @@ fn observe(l: Linkage<'_>, variant: usize) -> Obs {
             if hint != (len - k, Some(len - k)) {
                 inexact_size_hint = true;
             }
-            let item = it.next().map(merge_of);
+            let item = it.next().map(|c| merge_of!(c));
             if item != cluster.get(k).copied() {
                 note("cluster::Iter", format!("item {k} of a second forward iteration differs: {item:?}"));
                 break;
@@ -740,7 +750,7 @@ fn observe(l: Linkage<'_>, variant: usize) -> Obs {
         let (mut lo, mut hi) = (0usize, len);
         let mut front = true;
         while lo < hi {
-            let item = if front { it.next() } else { it.next_back() }.map(merge_of);
+            let item = if front { it.next() } else { it.next_back() }.map(|c| merge_of!(c));
             let want = if front { cluster[lo] } else { cluster[hi - 1] };
             if front {
                 lo += 1;
@@ -758,38 +768,37 @@ fn observe(l: Linkage<'_>, variant: usize) -> Obs {
         }
     }
     for k in 0..=len {
-        let item = l.cluster().nth(k).map(merge_of);
+        let item = l.cluster().nth(k).map(|c| merge_of!(c));
         if item != cluster.get(k).copied() {
             note("cluster::Iter", format!("cluster().nth({k}) = {item:?} (the merge addressed as index n+{k})"));
             break;
         }
     }
-    if l.cluster().last().map(merge_of) != cluster.last().copied() {
-        note("cluster::Iter", format!("cluster().last() = {:?}", l.cluster().last().map(merge_of)));
+    if l.cluster().last().map(|c| merge_of!(c)) != cluster.last().copied() {
+        note("cluster::Iter", format!("cluster().last() = {:?}", l.cluster().last().map(|c| merge_of!(c))));
     }
     if l.cluster().count() != len {
         note("cluster::Iter", format!("cluster().count() = {}", l.cluster().count()));
     }
     let indicies = l.indicies();
     // ---- the owned views (the linkage can be consumed only once)
-    let m = |c: hpo::stats::cluster::Cluster| merge_of(&c);
     let (owned_view, into_cluster): (&'static str, Vec<Merge>) = match variant % 4 {
         0 => {
             let it = l.into_cluster();
             if it.len() != len || it.size_hint().0 > len || it.size_hint().1.map_or(false, |u| u < len) {
                 note("cluster::IntoIter (ExactSizeIterator)", format!("into_cluster(): len() = {}, size_hint() = {:?} for {len} merges", it.len(), it.size_hint()));
             }
-            ("into_cluster()", it.map(m).collect())
+            ("into_cluster()", it.map(|c| merge_of!(c)).collect())
         }
         1 => {
             let it = l.into_iter();
             if it.len() != len || it.size_hint().0 > len || it.size_hint().1.map_or(false, |u| u < len) {
                 note("cluster::IntoIter (ExactSizeIterator)", format!("linkage.into_iter(): len() = {}, size_hint() = {:?} for {len} merges", it.len(), it.size_hint()));
             }
-            ("linkage.into_iter() (IntoIterator for Linkage)", it.map(m).collect())
+            ("linkage.into_iter() (IntoIterator for Linkage)", it.map(|c| merge_of!(c)).collect())
         }
         2 => {
-            let mut v: Vec<Merge> = l.into_cluster().rev().map(m).collect();
+            let mut v: Vec<Merge> = l.into_cluster().rev().map(|c| merge_of!(c)).collect();
             v.reverse();
             ("into_cluster().rev(), reversed", v)
         }
@@ -805,9 +814,9 @@ fn observe(l: Linkage<'_>, variant: usize) -> Obs {
                             note("cluster::IntoIter (ExactSizeIterator)", format!("len() goes from {before} to {} when one item is taken", it.len()));
                         }
                         if front {
-                            head.push(m(c));
+                            head.push(merge_of!(c));
                         } else {
-                            tail.push(m(c));
+                            tail.push(merge_of!(c));
                         }
                     }
                     None => break,
@@ -1114,7 +1123,7 @@ fn check(inp: &Inputs, method: Method, obs: &Obs, rf: &RefRun, rec: &Rec) -> Opt
         let (ids, len) = rec.malformed_example.clone().unwrap_or_default();
         return fail(
             site,
-            "distance callback received a malformed set (a term twice or terms not ascending in its iteration, or len() != number of distinct terms)",
+            "distance callback received a malformed set (a term twice in its iteration, or len() != number of distinct terms)",
             format!("n={n}: {} such sets, the first one iterates {:?} and has len() {}", rec.malformed, ids, len),
         );
     }
@@ -1184,15 +1193,19 @@ fn check(inp: &Inputs, method: Method, obs: &Obs, rf: &RefRun, rec: &Rec) -> Opt
             dead[r] = k;
         }
         let live_after = |k: usize, c: u32| (0..=n + k).any(|x| content[x] == c && dead[x] > k);
+        // (asking again for two clusters that are live at the same moment - re-validating a row after a merge - is
+        // slower but not excluded by the statement: such a pair is accepted as well; a content that is no cluster at
+        // all, or two clusters that never live together, is not)
+        let colive = |ca: u32, cb: u32| ((0..n).any(|x| content[x] == ca) && (0..n).any(|x| content[x] == cb)) || (0..n - 1).any(|k| live_after(k, ca) && live_after(k, cb));
         for &(call, ca, cb) in &rec.later {
-            let matched = (0..n - 1).any(|k| (ca == content[n + k] && live_after(k, cb)) || (cb == content[n + k] && live_after(k, ca)));
+            let matched = (0..n - 1).any(|k| (ca == content[n + k] && live_after(k, cb)) || (cb == content[n + k] && live_after(k, ca))) || colive(ca, cb);
             if !matched {
                 let unions: Vec<Vec<usize>> = (0..n - 1).map(|k| bits_of(content[n + k])).collect();
                 return fail(
                     "Linkage::union",
                     "distance callback received a set that is not the union of the merged sets",
                     format!(
-                        "n={n}: invocation {call} asks for ({:?}, {:?}); no merge of {:?} forms one of these sets as the union of its two parts with the other one live at that moment (unions formed: {:?})",
+                        "n={n}: invocation {call} asks for ({:?}, {:?}); these are not two clusters (inputs or unions of merged sets) that are live at the same moment, given the merges {:?} (unions formed: {:?})",
                         bits_of(ca),
                         bits_of(cb),
                         fmt_merges(&obs.cluster),
@@ -1266,14 +1279,14 @@ fn rust_snippet(ont_rust: &str, inp: &Inputs, method: Method, table: &Table, ada
     let rows: Vec<String> = (0..MAX_ATOMS).map(|i| format!("{:?}", table.ival[i])).collect();
     s.push_str(&format!("let ival: [[u64; {MAX_ATOMS}]; {MAX_ATOMS}] = [{}];\n", rows.join(", ")));
     let rows: Vec<String> = (0..MAX_ATOMS).map(|i| format!("{:?}", table.inf[i])).collect();
-    s.push_str(&format!("let inf: [[bool; {MAX_ATOMS}]; {MAX_ATOMS}] = [{}]; // atom pairs at distance +inf\n", rows.join(", ")));
+    s.push_str(&format!("let inf: [[bool; {MAX_ATOMS}]; {MAX_ATOMS}] = [{}]; // atom pairs at distance {}\n", rows.join(", "), table.inf_value));
     s.push_str(&format!("let scale = {}f64;\nlet offset = {}f64; // subtracted from every (mean) value before scaling\n", table.scale, table.offset));
     s.push_str("let value = |a: &Vec<usize>, b: &Vec<usize>| -> f32 {\n");
     s.push_str("    if a == b { return 0.0; } // the library also asks for a merged set against itself\n");
     if let Some(v) = table.fixed {
         s.push_str(&format!("    if true {{ return f32::from_bits({:#x}); }} // = {v:e}\n", v.to_bits()));
     }
-    s.push_str("    if a.iter().any(|i| b.iter().any(|j| inf[*i][*j])) { return f32::INFINITY; }\n");
+    s.push_str(&format!("    if a.iter().any(|i| b.iter().any(|j| inf[*i][*j])) {{ return {}; }}\n", if table.inf_value > 0.0 { "f32::INFINITY" } else { "f32::NEG_INFINITY" }));
     s.push_str("    let mut sum = 0u64; for i in a { for j in b { sum += ival[*i][*j]; } }\n");
     s.push_str("    ((sum as f64 / (a.len() * b.len()) as f64 - offset) / scale) as f32\n};\n");
     s.push_str("let atoms = |x: &HpoSet<'_>| -> Vec<usize> { let v: Vec<usize> = x.iter().map(|t| hpo::annotations::AnnotationId::as_u32(&t.id()) as usize).collect(); if v.is_empty() { vec![0] } else { v } };\n");
@@ -1517,7 +1530,7 @@ fn exhaustive(ctx: &mut Ctx, env: &Env, inp: &Inputs, fam: Family, tag: &str, sp
                 break;
             }
         }
-        flush(ctx, n, tag, special || fam == Family::InfTop, orders, &tally);
+        flush(ctx, n, tag, special || fam == Family::InfTop || fam == Family::InfBottom, orders, &tally);
         ctx.sample(|| {
             let t = Table::new(inp, &order, fam);
             let r = reference(inp, methods[0], &t);
@@ -1807,6 +1820,12 @@ fn describe_all(f: &[Inputs]) -> String {
 /// the big ontology is root 1 + BIG_TERMS children BIG_BASE..; a set is a sorted list of term indices (id - BIG_BASE)
 const BIG_BASE: u32 = 1000;
 const BIG_TERMS: usize = 410;
+/// terms of the big ontology itself (the formula layouts above are defined over the first BIG_TERMS of them)
+const BIG_ONT_TERMS: usize = 1040;
+/// the `Wide` layout: pair index over WIDE_TERMS terms, distances in 1..=WIDE_M (2^20 - 3, a prime above the
+/// 540 280 pairs of 1040 terms; still exact in f32)
+const WIDE_TERMS: usize = 1040;
+const WIDE_M: u64 = 1_048_573;
 /// a prime above the number of pairs of 410 terms (83 845); formula distances are in 1..=BIG_M, exact in f32
 const BIG_M: u64 = 131071;
 const BIG_SCALE: f64 = 262144.0;
@@ -1819,6 +1838,8 @@ const BIG_SCALE: f64 = 262144.0;
 #[derive(Clone, Debug)]
 enum BigLayout {
     Formula { name: &'static str, a: u64, b: u64 },
+    /// as Formula, for more than BIG_TERMS inputs: p over WIDE_TERMS terms -> ((p * a + b) mod WIDE_M) + 1
+    Wide { name: &'static str, a: u64, b: u64 },
     Matrix { name: String, k: usize, ints: Vec<u64> },
 }
 
@@ -1834,7 +1855,7 @@ fn big_layout(i: usize) -> BigLayout {
 impl BigLayout {
     fn name(&self) -> String {
         match self {
-            BigLayout::Formula { name, .. } => name.to_string(),
+            BigLayout::Formula { name, .. } | BigLayout::Wide { name, .. } => name.to_string(),
             BigLayout::Matrix { name, .. } => name.clone(),
         }
     }
@@ -1847,6 +1868,11 @@ impl BigLayout {
                 let (lo, hi) = (x.min(y) as u64, x.max(y) as u64);
                 let p = lo * BIG_TERMS as u64 - lo * (lo + 1) / 2 + (hi - lo - 1);
                 (p * a + b) % BIG_M + 1
+            }
+            BigLayout::Wide { a, b, .. } => {
+                let (lo, hi) = (x.min(y) as u64, x.max(y) as u64);
+                let p = lo * WIDE_TERMS as u64 - lo * (lo + 1) / 2 + (hi - lo - 1);
+                (p * a + b) % WIDE_M + 1
             }
             BigLayout::Matrix { k, ints, .. } => ints[x * k + y],
         }
@@ -1868,7 +1894,7 @@ struct BigRec {
     calls: u32,
     /// (invocation, lhs terms, rhs terms), in the order received
     pairs: Vec<(u32, Vec<u16>, Vec<u16>)>,
-    /// sets with a foreign term / not strictly ascending / len() != number of terms: first example
+    /// sets with a foreign term / a term twice / len() != number of terms: first example
     malformed: u32,
     malformed_example: Option<(Vec<u32>, usize)>,
 }
@@ -1876,15 +1902,19 @@ struct BigRec {
 fn big_members(set: &HpoSet<'_>, rec: &mut BigRec) -> Vec<u16> {
     let mut out = Vec::with_capacity(set.len());
     let mut ok = true;
-    let mut prev: Option<u32> = None;
     for t in set.iter() {
         let id = t.id().as_u32();
-        if prev.map_or(false, |p| p >= id) || id < BIG_BASE || id >= BIG_BASE + BIG_TERMS as u32 {
+        if id < BIG_BASE || id >= BIG_BASE + BIG_ONT_TERMS as u32 {
             ok = false;
         } else {
             out.push((id - BIG_BASE) as u16);
         }
-        prev = Some(id);
+    }
+    // (the order of the iteration is not demanded: members are compared sorted; a term twice is malformed)
+    out.sort_unstable();
+    if out.windows(2).any(|w| w[0] == w[1]) {
+        ok = false;
+        out.dedup();
     }
     if !ok || set.len() != out.len() {
         rec.malformed += 1;
@@ -2069,7 +2099,7 @@ fn big_check(inputs: &[Vec<u16>], method: Method, obs: &Obs, rf: &RefRun, rec: &
         let (ids, len) = rec.malformed_example.clone().unwrap_or_default();
         return fail(
             site,
-            "distance callback received a malformed set (a term twice or terms not ascending in its iteration, or len() != number of distinct terms)",
+            "distance callback received a malformed set (a term twice in its iteration, or len() != number of distinct terms)",
             format!("n={n}: {} sets that are malformed or hold a term of no input, the first one iterates {:?} and has len() {}", rec.malformed, crate::model::short(&format!("{ids:?}")), len),
         );
     }
@@ -2180,12 +2210,17 @@ fn big_check(inputs: &[Vec<u16>], method: Method, obs: &Obs, rf: &RefRun, rec: &
             let (xa, xb) = (by_content.get(a.as_slice()).unwrap_or(&empty), by_content.get(b.as_slice()).unwrap_or(&empty));
             // x is the cluster formed by merge x-n, y is live right after that merge (or is x itself)
             let fits = |xs: &Vec<usize>, ys: &Vec<usize>| xs.iter().any(|&x| x >= n && ys.iter().any(|&y| y <= x && dead[y] > x - n));
-            if !(fits(xa, xb) || fits(xb, xa)) {
+            // two clusters live at the same moment (asked again): cluster x is live from its birth (input: from the
+            // start; cluster n+k: after merge k) until the merge that consumes it
+            let born = |x: usize| if x < n { 0 } else { x - n + 1 };
+            let died = |x: usize| if dead[x] == usize::MAX { usize::MAX } else { dead[x] + 1 };
+            let colive = xa.iter().any(|&x| xb.iter().any(|&y| born(x).max(born(y)) < died(x).min(died(y))));
+            if !(fits(xa, xb) || fits(xb, xa) || colive) {
                 return fail(
                     "Linkage::union",
                     "distance callback received a set that is not the union of the merged sets",
                     format!(
-                        "n={n}: invocation {call} asks for ({}, {}) (term indices); no merge forms one of these sets as the union of its two parts with the other one live at that moment",
+                        "n={n}: invocation {call} asks for ({}, {}) (term indices); these are not two clusters (inputs or unions of merged sets) that are live at the same moment",
                         crate::model::short(&format!("{a:?}")),
                         crate::model::short(&format!("{b:?}"))
                     ),
@@ -2220,7 +2255,7 @@ fn big_check(inputs: &[Vec<u16>], method: Method, obs: &Obs, rf: &RefRun, rec: &
 fn big_rust(inputs: &[Vec<u16>], method: Method, l: &BigLayout, adaptor: Adaptor) -> String {
     let mut s = String::new();
     s.push_str("use hpo::{HpoSet, stats::Linkage, term::HpoGroup, utils::Combinations};\n");
-    s.push_str(&format!("let mut b = hpo::builder::Builder::new();\nb.new_term(\"root\", 1u32);\nfor i in 0..{BIG_TERMS}u32 {{ b.new_term(&format!(\"T{{}}\", {BIG_BASE} + i), {BIG_BASE} + i); }}\nlet mut b = b.terms_complete();\nfor i in 0..{BIG_TERMS}u32 {{ b.add_parent(1u32, {BIG_BASE} + i).unwrap(); }}\nlet ont = b.connect_all_terms().calculate_information_content().unwrap().build_minimal();\n"));
+    s.push_str(&format!("let mut b = hpo::builder::Builder::new();\nb.new_term(\"root\", 1u32);\nfor i in 0..{BIG_ONT_TERMS}u32 {{ b.new_term(&format!(\"T{{}}\", {BIG_BASE} + i), {BIG_BASE} + i); }}\nlet mut b = b.terms_complete();\nfor i in 0..{BIG_ONT_TERMS}u32 {{ b.add_parent(1u32, {BIG_BASE} + i).unwrap(); }}\nlet ont = b.connect_all_terms().calculate_information_content().unwrap().build_minimal();\n"));
     if inputs.iter().enumerate().all(|(i, v)| v.len() == 1 && v[0] as usize == i) {
         s.push_str(&format!("let inputs: Vec<Vec<u32>> = (0..{}u32).map(|i| vec![i]).collect(); // term indices; term id = {BIG_BASE} + index\n", inputs.len()));
     } else {
@@ -2230,6 +2265,10 @@ fn big_rust(inputs: &[Vec<u16>], method: Method, l: &BigLayout, adaptor: Adaptor
         BigLayout::Formula { a, b, .. } => {
             s.push_str(&format!("// base distance of two different terms x < y (indices): pair index p = x*{BIG_TERMS} - x*(x+1)/2 + (y-x-1); ((p * {a} + {b}) % {BIG_M} + 1) / 2^18; a term is at 0 from itself\n"));
             s.push_str(&format!("let base = |x: u64, y: u64| -> u64 {{ if x == y {{ return 0; }} let (x, y) = (x.min(y), x.max(y)); let p = x * {BIG_TERMS} - x * (x + 1) / 2 + (y - x - 1); (p * {a} + {b}) % {BIG_M} + 1 }};\n"));
+        }
+        BigLayout::Wide { a, b, .. } => {
+            s.push_str(&format!("// base distance of two different terms x < y (indices): pair index p = x*{WIDE_TERMS} - x*(x+1)/2 + (y-x-1); ((p * {a} + {b}) % {WIDE_M} + 1) / 2^18; a term is at 0 from itself\n"));
+            s.push_str(&format!("let base = |x: u64, y: u64| -> u64 {{ if x == y {{ return 0; }} let (x, y) = (x.min(y), x.max(y)); let p = x * {WIDE_TERMS} - x * (x + 1) / 2 + (y - x - 1); (p * {a} + {b}) % {WIDE_M} + 1 }};\n"));
         }
         BigLayout::Matrix { k, ints, .. } => {
             s.push_str(&format!("// base distances of the terms (indices) as a {k} x {k} table, / 2^18\nlet table: Vec<u64> = vec!{:?};\nlet base = |x: u64, y: u64| -> u64 {{ table[(x * {k} + y) as usize] }};\n", ints));
@@ -2268,14 +2307,14 @@ fn big_space(ctx: &mut Ctx, name: &str, bound: &str, runs: &[BigRun]) {
         }
         if ont.is_none() {
             let mut facts = Facts { terms: vec![Facts::term(ROOT, "root")], edges: vec![], anns: vec![], version: (0, 0, 0) };
-            for i in 0..BIG_TERMS as u32 {
+            for i in 0..BIG_ONT_TERMS as u32 {
                 facts.terms.push(Facts::term(BIG_BASE + i, &format!("T{}", BIG_BASE + i)));
                 facts.edges.push((BIG_BASE + i, ROOT));
             }
             match drive::build(&facts, Mode::Minimal) {
                 Ok(o) => ont = Some(o),
                 Err(e) => {
-                    ctx.violation("Builder", "construction fails on valid facts", json!({"facts": format!("root 1 + {BIG_TERMS} children from {BIG_BASE}"), "observed": e}));
+                    ctx.violation("Builder", "construction fails on valid facts", json!({"facts": format!("root 1 + {BIG_ONT_TERMS} children from {BIG_BASE}"), "observed": e}));
                     return;
                 }
             }
@@ -2390,7 +2429,7 @@ fn history_matrix(n: usize, hist: &[(usize, usize)]) -> Vec<u64> {
 
 pub fn run(ctx: &mut Ctx) {
     ctx.rule = "an input = (n pairwise term-disjoint input sets, a rank order of the base distances, a linkage method); base distances are those between the atoms (terms; an empty set counts as one pseudo-atom) of the inputs - for singleton inputs these are the n(n-1)/2 pairwise distances - and two sets are at the mean of the base distances between their atoms; \
-        the pair of rank r gets the dyadic base distance ((r+1)*2^m + 2^r)/2^(m+6) (m = number of pairs; spaces named linear-/geometric-values use (r+1)/64 resp. 3^r/2^16 instead; spaces named one-infinite-distance put the pair of the largest rank at f32::INFINITY; n2/explicit-distance-values uses the listed f32 values); \
+        the pair of rank r gets the dyadic base distance ((r+1)*2^m + 2^r)/2^(m+6) (m = number of pairs; spaces named linear-/geometric-values use (r+1)/64 resp. 3^r/2^16 instead; spaces named one-infinite-distance put the pair of the largest rank at f32::INFINITY, spaces named one-negative-infinite-distance the closest pair at f32::NEG_INFINITY; n2/explicit-distance-values uses the listed f32 values); \
         a case = a block of rank orders sharing a prefix (up to 10 base distances) or one near-base rank order applied to three base orders (n = 6,7), each run under the listed methods; \
         spaces named all-merge-histories enumerate instead every sequence of merges (any pair of live clusters at every step) and force it with the table: inputs whose clusters are joined at step s are at ((s+1)*256 + p)/2048 with a distinct p in 1..=28 per pair (a case = the 18 histories sharing the first n-4 merges); inputs are distinct by construction; \
         states = rank orders, executions = clusterings, validated = clusterings compared merge by merge (pair, distance, len) with the reference without meeting a tie; non-trivial = validated and (n >= 3 \
@@ -2401,17 +2440,17 @@ pub fn run(ctx: &mut Ctx) {
         "no ties are constructed; where the size-weighted/plain means produce equal f32 values at the minimum, the run is counted in extra.ties and compared only up to that step".into(),
         "`average` is checked against the documented rule (mean of the distances of the two merged parts, not size-weighted UPGMA); the arithmetic of the mean is not fixed by the property: the reported distance may deviate from the reference's f32 (x+y)/2 by one unit in the last place per mean taken (a mean of means inherits half of each part's deviation), and a step at which another live pair lies within these deviations of the closest one counts as a tie".into(),
         "for `union` the user distance of (merged set, other live set) is the mean of the base distances between the terms of the TRUE union of the merged input sets and the terms of the other set, computed by the same function in the callback (from the content it is handed) and in the reference (from the inputs)".into(),
-        "callback accounting: the first n(n-1)/2 pairs received - in one or several invocations, in any order - must be each unordered pair of inputs exactly once (so every initial pair is asked before any pair with a merged set); every later pair (union) must be matched by content to one of the library's own merges: one side, in either position, is exactly the union of the two sets joined by that merge and the other side is a cluster live right after it (or that union itself - the library asks the merged set against itself; counted in extra, not a violation); which invocation a pair arrives in is not demanded".into(),
+        "callback accounting: the first n(n-1)/2 pairs received - in one or several invocations, in any order - must be each unordered pair of inputs exactly once (so every initial pair is asked before any pair with a merged set); every later pair (union) must be matched by content to the library's own merges: both sides are clusters (inputs, or exactly the union of the two sets joined by some merge) that are live at the same moment (or one union against itself - the library asks the merged set against itself; counted in extra, not a violation); which invocation a pair arrives in, and whether a pair of old live clusters is asked again, is not demanded".into(),
         "empty input sets are legal inputs (e.g. the set of an unannotated gene) and are clustered like any other; with two empty inputs the initial call is keyed by input index (both have the same content), so every unordered pair of inputs has its own distance; afterwards an empty set is keyed by its (empty) content, which makes two live empty sets equidistant to a new cluster (counted as ties when minimal)".into(),
         "input sets may contain terms related by is_a (an ancestor in one input, its descendant in another or the same): clustering must not normalise the content of merged sets".into(),
         "(lhs, rhs) of a merge is compared as an unordered pair".into(),
-        "+inf, 0.0, f32::MAX and f32::MIN_POSITIVE are legal distances (e.g. -ln of a similarity of 0 is +inf); the merge at +inf must be reported at +inf; NaN and negative values are not used".into(),
+        "+inf, -inf, 0.0, +-f32::MAX and +-f32::MIN_POSITIVE are legal distances (e.g. -ln of a similarity of 0 is +inf, ln of it -inf); the merge at an infinite distance must be reported at that distance; NaN is not used. The statement does not mention non-finite distances and the API has no error channel: this is a policy of the harness - an implementation that refuses them by panicking is reported".into(),
         "the sign of the user distance is not restricted: the spaces named *-negative-* shift the same dyadic values by an integer offset (applied after the mean, which is affine) so that some or all distances are below zero; the reported merge distances must be those negative values".into(),
         "input sets may overlap, be nested or equal (spaces named overlapping-inputs): the distance is then a plain look-up keyed by the two contents (28 distinct exact values for the unordered pairs of the 7 non-empty subsets of a 3-term universe, equal contents included); for `union` the merged set must be the set union; equal-content inputs produce equal distances, counted as ties when minimal".into(),
-        "every set handed to the callback (any space, any invocation) must iterate its terms strictly ascending without repetition and report len() = number of distinct terms (an HpoSet is a set of unique terms)".into(),
+        "every set handed to the callback (any space, any invocation) must iterate its terms without repetition and report len() = number of distinct terms (a union is a set of unique terms); the order of the iteration is not demanded".into(),
         "the linkage functions take any IntoIterator of sets: how the sets are handed in (Vec, filter, flatten, from_fn, chain - different size hints) must not matter; every space rotates through these adaptors by case number, the input-adaptors spaces run all of them".into(),
         "the magnitude of the distances is not restricted: tables scaled by 2^-30 .. 2^-100 (far below f32::EPSILON), by 2^60, and tables mixing tiny and ordinary distances must be clustered by exact comparison like any other".into(),
-        "the number of inputs is not restricted: the many-inputs spaces cluster 255 / 256 / 257 / 300 singletons (union: 64 / 130) over a flat 310-term ontology with all pairwise distances distinct (a bijective integer formula over the pair index, scaled by 2^-17; sets at the mean over their members), checked by the same naive reference on vectors; rounding of nested means can produce equal f32 values, counted as ties as elsewhere".into(),
+        "the number of inputs is not restricted: the many-inputs spaces cluster 255 / 256 / 257 / 300 / 400 / 520 singletons (union: 64 / 130) over a flat 310-term ontology with all pairwise distances distinct (a bijective integer formula over the pair index, scaled by 2^-17; sets at the mean over their members), checked by the same naive reference on vectors; rounding of nested means can produce equal f32 values, counted as ties as elsewhere".into(),
         "input sets may contain obsolete terms and terms that carry a replacement: the spaces named *-flagged* repeat the overlapping-inputs and related-terms spaces on an ontology decoded from bytes (format v3) in which 4 and 7 are obsolete, 6 is obsolete and replaced by 3, 5 and 7 carry replacements (2 resp. 5); clustering must neither drop nor substitute such members - the callback sees the exact union".into(),
         "subnormal distances are legal: `average` must report the mean of the two parts exactly where it is representable (the subnormal family makes every such mean an integer multiple of 2^-149)".into(),
         "at the top of the f32 range the documented mean of two parts is finite while the sum-then-halve arithmetic overflows: such `average` runs are don't-care from the first merge that depends on an overflowing sum (counted in extra.average_sum_overflow_dont_care)".into(),
@@ -2500,6 +2539,17 @@ pub fn run(ctx: &mut Ctx) {
     };
     for n in 2..=4usize {
         infinite(ctx, n);
+    }
+    // ... and one negative infinite distance: the closest pair at -inf (n = 2: among the explicit values below). The
+    // first merge must be reported at -inf; no other distance involves it
+    for n in 3..=4usize {
+        let m = n_pairs(n);
+        let total: u64 = (1..=m as u64).product();
+        ctx.space(
+            &format!("n{n}/all-rank-orders/one-negative-infinite-distance/all-methods"),
+            &format!("n = {n}: all {total} rank orders of the {m} pairwise distances, the pair of rank 0 at f32::NEG_INFINITY x 4 methods"),
+        );
+        exhaustive(ctx, &env, &Inputs::flat(n), Family::InfBottom, "one-negative-infinite-values", true, &METHODS);
     }
 
     // ---- negative distances: the Spread values minus an offset, so that the closest pair / half of the pairs /
@@ -2612,8 +2662,8 @@ pub fn run(ctx: &mut Ctx) {
     }
 
     // ---- n = 2 with explicit border values of the single distance
-    ctx.space("n2/explicit-distance-values/all-methods", "n = 2: the distance of the two inputs in {0.5, +inf, 0.0, f32::MAX, f32::MIN_POSITIVE} x 4 methods (NaN is not a distance and is left out)");
-    for v in [0.5f32, f32::INFINITY, 0.0, f32::MAX, f32::MIN_POSITIVE] {
+    ctx.space("n2/explicit-distance-values/all-methods", "n = 2: the distance of the two inputs in {0.5, +inf, 0.0, f32::MAX, f32::MIN_POSITIVE, -0.5, -inf, -f32::MAX, -f32::MIN_POSITIVE} x 4 methods (NaN is not a distance and is left out)");
+    for v in [0.5f32, f32::INFINITY, 0.0, f32::MAX, f32::MIN_POSITIVE, -0.5, f32::NEG_INFINITY, -f32::MAX, -f32::MIN_POSITIVE] {
         if !ctx.take() {
             continue;
         }
@@ -2787,6 +2837,16 @@ pub fn run(ctx: &mut Ctx) {
             runs.push(run(363, Method::Complete, 3));
         }
         big_space(ctx, "many-inputs/more-than-2^16-pairs", &format!("n = 400 singleton inputs (79 800 pairs; thorough also 363 = the first n with more than 65 536 pairs); {formula}"), &runs);
+        // cluster indices beyond 1000 / 1024 (a key that packs the two indices into decimal or 10-bit fields, a table
+        // pre-sized for 1024 nodes): n = 520 gives indices up to 1038; thorough n = 1030 (indices up to 2058)
+        let wide = |n: usize, method: Method| BigRun { what: format!("{n} singletons {{{BIG_BASE}+i}}"), inputs: singletons(n), method, layout: BigLayout::Wide { name: "scattered over 2^20 - 3", a: 40503, b: 12345 }, expect_history: None };
+        let mut runs = vec![wide(520, Method::Single)];
+        if thorough {
+            runs.push(wide(520, Method::Complete));
+            runs.push(wide(520, Method::Average));
+            runs.push(wide(1030, Method::Single));
+        }
+        big_space(ctx, "many-inputs/cluster-indices-beyond-1024", &format!("n = 520 singleton inputs, single linkage (cluster indices up to 1038; thorough also complete, average and n = 1030); distance of terms = ((40503 p + 12345) mod {WIDE_M} + 1)/2^18 over the pair index p among {WIDE_TERMS} terms (all pairs distinct); flat ontology of {BIG_ONT_TERMS} terms"), &runs);
 
         // ---- large overlapping input sets: the merged sets cross 30 terms WITH duplicates to remove
         let range = |a: u16, b: u16| (a..b).collect::<Vec<u16>>();
@@ -2806,7 +2866,7 @@ pub fn run(ctx: &mut Ctx) {
                 }
             }
         }
-        big_space(ctx, "large-overlapping-inputs/all-methods", &format!("4 input sets of 16..40 terms with pairwise overlaps (2 families) x 4 layouts for union, 2 (thorough 4) for the others; content oracle: every set handed to the callback is well formed and, after the initial phase, the exact union of two merged sets; {formula}, a term at 0 from itself"), &runs);
+        big_space(ctx, "large-overlapping-inputs/all-methods", &format!("4 input sets of 16..40 terms with pairwise overlaps (2 families) x 4 layouts for union, 2 (thorough 4) for the others; content oracle: every set handed to the callback is well formed (no term twice, len() = number of terms) and, after the initial phase, the exact union of two merged sets; {formula}, a term at 0 from itself"), &runs);
 
         // ---- medium n: a deterministic lattice of merge histories, forced by perturbed ultrametric tables
         let per_n = if thorough { 60 } else { 10 };
@@ -2827,6 +2887,45 @@ pub fn run(ctx: &mut Ctx) {
             }
         }
         big_space(ctx, "medium-n/lattice-of-merge-histories/all-methods", &format!("n in {{12, 20, 33}} x {per_n} merge histories each (history h joins at step s the pair number (h(2s+3) + s^2 + h/7) mod #pairs of the live clusters), forced by tables with height (s+1)*4096 + a distinct perturbation < 1024 per pair, / 2^18, x 4 methods"), &runs);
+    }
+
+    // ---- medium n with MULTI-TERM inputs under union: several live multi-term sets and a long merge sequence at once
+    //      (the other union spaces have either many singletons or at most four multi-term inputs)
+    {
+        let mut runs = vec![];
+        for (n, hs) in [(12usize, if thorough { 30 } else { 10 }), (24, if thorough { 20 } else { 5 })] {
+            for h in 0..hs {
+                let hist = lattice_history(n, h);
+                let hm = history_matrix(n, &hist);
+                // term t belongs to block t / 3; two terms of different blocks are at the forced table's value for their
+                // blocks plus a small symmetric perturbation by their positions inside the blocks (< 32, the bands of the
+                // heights are 4096 apart); terms of one block are at 1 + that perturbation (only used by the overlapping variant)
+                let k = 3 * n + 1;
+                let mut ints = vec![0u64; k * k];
+                for x in 0..k {
+                    for y in 0..k {
+                        if x != y {
+                            let (bx, by) = ((x / 3).min(n - 1), (y / 3).min(n - 1));
+                            let pert = (5 * (x % 3 + y % 3) + (x % 3) * (y % 3)) as u64;
+                            ints[x * k + y] = if bx == by { 1 + pert } else { hm[bx * n + by] + pert };
+                        }
+                    }
+                }
+                let disjoint: Vec<Vec<u16>> = (0..n).map(|i| (3 * i as u16..3 * i as u16 + 3).collect()).collect();
+                // every input additionally holds the first term of the next one (the last one: the term after its own)
+                let chained: Vec<Vec<u16>> = (0..n).map(|i| (3 * i as u16..3 * i as u16 + 4).collect()).collect();
+                for (inputs, what) in [(disjoint, "disjoint 3-term inputs {3i, 3i+1, 3i+2}"), (chained, "4-term inputs {3i .. 3i+3}, each sharing its last term with the next")] {
+                    runs.push(BigRun {
+                        what: format!("{n} {what}, table built from lattice history {h}"),
+                        inputs,
+                        method: Method::Union,
+                        layout: BigLayout::Matrix { name: format!("block table: the perturbed ultrametric table of lattice history {h} over the inputs, plus 5(x%3 + y%3) + (x%3)(y%3) per term pair"), k, ints: ints.clone() },
+                        expect_history: None,
+                    });
+                }
+            }
+        }
+        big_space(ctx, "medium-n/multi-term-inputs/union", "n in {12, 24} inputs of 3 terms (disjoint) or 4 terms (each overlapping the next by one term) x 10 resp. 5 (thorough 30 / 20) distance tables, each built from a lattice merge history over the inputs (block heights (s+1)*4096 + perturbation, / 2^18) plus a per-term perturbation; union linkage; content oracle as in the large-overlapping space: every set handed to the callback is well formed and a true union of merged inputs", &runs);
     }
 
     // ---- n = 6, 7: Kendall-tau balls around three base orders
